@@ -20,7 +20,7 @@ BOUNDS = {
     "quick": "25 classes x {no option, each single option, all options} with free 53-bit ids and free numeric options; batches of N <= 3 blobs with lengths 0..2 per batched serializer incl. truncated/garbled batches; cache across two serializers; real codecs on boundary values (0, 1, 2^53, unicode, binary, nested) for every class with all options",
     "thorough": "additionally all pairs of options per class; N <= 4, lengths 0..3",
 }
-EXPECT_COVERS = ["real:payload", "rt:bare", "rt:single", "rt:all", "batch:ok", "batch:malformed", "cache", "real:json", "real:msgpack", "real:cbor", "real:ubjson", "binflag"]
+EXPECT_COVERS = ["real:modes", "real:payload", "rt:bare", "rt:single", "rt:all", "batch:ok", "batch:malformed", "cache", "real:json", "real:msgpack", "real:cbor", "real:ubjson", "binflag"]
 BUDGET = {"quick": dict(wall_s=300, max_paths=20000, diff_samples=2), "thorough": dict(wall_s=2400, diff_samples=2)}
 
 
@@ -266,6 +266,49 @@ def real_payload(sx, ser_id, batched, cname):
     return [ser_id, len(bad)]
 
 
+JSON_MODES = ["default", "hex", "decstr", "decfloat", "batched"]
+
+
+def _json_mode(ser, mode):
+    if mode == "default":
+        return ser.JsonSerializer()
+    if mode == "batched":
+        return ser.JsonSerializer(batched=True)
+    if mode == "hex":
+        return ser.JsonSerializer(use_binary_hex_encoding=True)
+    if mode == "decstr":
+        return ser.JsonSerializer(use_decimal_from_str=True)
+    return ser.Serializer(ser.JsonObjectSerializer(use_decimal_from_float=True))
+
+
+def json_modes(sx, first, second):
+    """serializer objects constructed with different options live side by side in one process (a router with several listeners, a client
+    with several connections): what one of them decodes first must not change what another one returns afterwards"""
+    import decimal
+    import autobahn.wamp.serializer as ser
+    from autobahn.wamp import message
+    _restore_codecs()
+    args = [1.5, 0.1, "plain", b"\x00ab", 7, [2.25], {"f": 3.5}]
+    kwargs = {"x": 0.5, "s": "t", "b": b"\xff"}
+    m = message.Event(7, 8, args=args, kwargs=kwargs)
+    bad = []
+    for mode in (first, second, first):
+        s = _json_mode(ser, mode)
+        data, is_bin = s.serialize(m)
+        back = s.unserialize(data, is_bin)
+        if mode == "decfloat":
+            D = decimal.Decimal
+            want_a = [D("1.5"), D("0.1"), "plain", b"\x00ab", 7, [D("2.25")], {"f": D("3.5")}]
+            want_k = {"x": D("0.5"), "s": "t", "b": b"\xff"}
+        else:
+            want_a, want_k = args, kwargs
+        if not (len(back) == 1 and _same_typed(back[0].args, want_a) and _same_typed(back[0].kwargs, want_k)):
+            bad.append((mode, repr(back[0].args)[:120] if back else None))
+    sx.check(not bad, "real-codec:serializer-objects-with-different-options-do-not-influence-each-other", info=dict(first=first, second=second, bad=bad[:3]))
+    sx.cover("real:modes")
+    return [first, second, len(bad)]
+
+
 def _same_typed(a, b):
     if type(a) is not type(b) and not (isinstance(a, (list, tuple)) and isinstance(b, (list, tuple))):
         return False
@@ -284,6 +327,10 @@ def units(tier):
         for batched in (False, True):
             for cname in (("Event",) if q else ("Event", "Call", "Error")):
                 U.append(("payload/%s/%s/%s" % (ser_id, "b" if batched else "u", cname), "real_payload", dict(ser_id=ser_id, batched=batched, cname=cname)))
+    for a in JSON_MODES:
+        for b in JSON_MODES:
+            if a != b:
+                U.append(("modes/%s-%s" % (a, b), "json_modes", dict(first=a, second=b)))
     C = msglib.classes()
     for cname, cls in sorted(C.items()):
         opts = msglib.optional_params(cls)
